@@ -66,6 +66,9 @@ def boundary_counts(code, limits=(0xFF, 0xFFFF)):
         for n in (lim // w, lim // w + 1):
             if n not in out:
                 out.append(n)
+    if 0xFFFF in limits:
+        # a payload whose three length bytes are pairwise different (01 02 08), so that a mixed-up length byte shows
+        out.append(0x010208 // w)
     return out
 
 
